@@ -121,6 +121,7 @@ class FnSpec:
         self.impl_match = None
         self.may_fail = []
         self.no_panic_when = None
+        self.fmt_args = None          # R20: name of the emitted Display::fmt of the argument types
         self.strip_nested = False     # R19
         self.debug_builders = False   # R18
         self.ptr_model = []        # R17: (array expression, element type, [pointer names])
@@ -278,7 +279,7 @@ def parse_contract_file(path, unit=None, seen=None):
             continue
         st = ln.strip()
         m = re.match(r'^(ret|requires|ensures|decreases|loop|invariant|invariant_except_break|loop_ensures|at_start|at_end|after_loop|before_loop|loop_body_start|loop_body_end|at|attr|tags|as_inherent|'
-                     r'external_body|no_body|loop_hint|subst|impl_match|returns|opens|debug_assert_may_fail|concrete_ret|no_panic_when|ptr_model|debug_builders|strip_nested_items)\b\s*(.*)$', st)
+                     r'external_body|no_body|loop_hint|subst|impl_match|returns|opens|debug_assert_may_fail|concrete_ret|no_panic_when|ptr_model|debug_builders|strip_nested_items|fmt_args)\b\s*(.*)$', st)
         indent = len(ln) - len(ln.lstrip())
         if m and indent <= 4 or (m and m.group(1) in ('invariant', 'invariant_except_break', 'loop_ensures', 'decreases') and indent <= 8 and cur_clause is None):
             kw, rest = m.group(1), m.group(2)
@@ -365,6 +366,8 @@ def parse_contract_file(path, unit=None, seen=None):
                 cur_fn.debug_builders = True
             elif kw == 'strip_nested_items':
                 cur_fn.strip_nested = True
+            elif kw == 'fmt_args':
+                cur_fn.fmt_args = rest.strip()
             elif kw == 'ptr_model':
                 mm = re.match(r'^(\S+)\s+\[(\S+)\]\s*:\s*(.+)$', rest)
                 if not mm:
@@ -882,6 +885,12 @@ class FnAsm:
             body, c2 = re.subn(r'\b%s\.as_ref\(\)' % re.escape(nm), nm, body)
             self.log.append('R11: dropped %d `let %s = %s.as_ref();`, replaced %d inline `%s.as_ref()`' % (c1, nm, nm, c2, nm))
         if sp:
+            if sp.fmt_args:
+                try:
+                    body, flog = rules.r20_write_fmt(body, sp.fmt_args)
+                except (rules.RuleError, rsparse.ScanError, ValueError) as e:
+                    raise Undecided('%s: %s' % (self.qual, e))
+                self.log += flog
             if sp.debug_builders:
                 try:
                     body, dlog = rules.r18_debug_chain(body)
